@@ -171,6 +171,23 @@ func checkC14Parse(raw json.RawMessage) (ev.Result, error) {
 			if err := b.Unpack(string(o)); err != nil || b != o {
 				return res, fmt.Errorf("printed form of operation %q does not parse back", o)
 			}
+			// "printed" is what the fmt verbs and the text encoders make of the value
+			printed := map[string]string{"%v": fmt.Sprintf("%v", o), "%s": fmt.Sprintf("%s", o), "Sprint": fmt.Sprint(o)}
+			if jb, err := json.Marshal(o); err == nil {
+				var js string
+				if json.Unmarshal(jb, &js) == nil {
+					printed["json"] = js
+				}
+			}
+			if yb, err := yaml.Marshal(o); err == nil {
+				printed["yaml"] = strings.TrimSpace(string(yb))
+			}
+			for how, txt := range printed {
+				var back seccomp.Operation
+				if err := back.Unpack(txt); err != nil || back != o {
+					return res, fmt.Errorf("operation %q is printed (%s) as %q, which does not parse back (%v, %q)", string(o), how, txt, err, string(back))
+				}
+			}
 		} else {
 			res.Classes = append(res.Classes, "parse:unknown-name")
 			if err == nil {
